@@ -85,15 +85,49 @@ def replay_2d():
         from acryo import TomogramSimulator, Molecules
 
         rng = np.random.default_rng(4)
-        tmpl = rng.normal(size=(3, 3, 3)).astype(np.float32)
-        pos = [[4, 5, 6], [5, 12, 7], [3, 8, 14]]
-        sim = TomogramSimulator(order=1, scale=1.0)
+        tmpl = rng.normal(size=(3, 4, 5)).astype(np.float32)
+        tmpl2 = rng.normal(size=(2, 2, 2)).astype(np.float32)
+        scale = fl(cex.get("scale", 1.0)) or 1.0
+        if all(f"p{i}{a}" in cex for i in range(3) for a in range(3)):
+            pos = [[fl(cex[f"p{i}{a}"]) for a in range(3)] for i in range(3)]
+        else:
+            pos = [[4 * scale, 5 * scale, 6 * scale], [5 * scale, 12 * scale, 7 * scale], [3 * scale, 8 * scale, 14 * scale]]
+        sim = TomogramSimulator(order=1, scale=scale)
         sim.add_molecules(Molecules(pos[:2]), tmpl)
-        sim.add_molecules(Molecules(pos[2:]), tmpl * 2)
-        vol = sim.simulate((12, 20, 20))
-        proj = sim.simulate_2d((20, 20))
+        sim.add_molecules(Molecules(pos[2:]), tmpl2)
+        depth = int(np.ceil(max(p[0] for p in pos) / scale)) + 12
+        vol = sim.simulate((depth, 40, 40))
+        proj = sim.simulate_2d((40, 40))
         err = float(np.abs(proj - vol.sum(axis=0)).max())
-        return err > 1e-4, {"max_abs_err_projection_vs_zsum": err, "positions": pos}
+        return err > 1e-4, {"max_abs_err_projection_vs_zsum": err, "positions_nm": pos, "scale": scale}
+
+    return run
+
+
+def replay_clip():
+    """molecules straddling each face are clipped: equal to the crop of a simulation in a padded volume"""
+
+    def run(cex):
+        from acryo import TomogramSimulator, Molecules
+
+        rng = np.random.default_rng(6)
+        tmpl = rng.normal(size=(5, 4, 6)).astype(np.float32)
+        ctr = np.array([(s - 1) / 2 for s in tmpl.shape])
+        worst = 0.0
+        details = []
+        for corner in itertools.product((-2, 7, 17), repeat=3):
+            pos = np.array(corner) + ctr
+            sim = TomogramSimulator(order=1, scale=1.0)
+            sim.add_molecules(Molecules([pos]), tmpl)
+            small = sim.simulate((20, 20, 20))
+            big = TomogramSimulator(order=1, scale=1.0)
+            big.add_molecules(Molecules([pos + 10]), tmpl)
+            ref = big.simulate((40, 40, 40))[10:30, 10:30, 10:30]
+            e = float(np.abs(small - ref).max())
+            if e > 1e-4:
+                details.append({"corner": list(corner), "max_abs_err": e})
+            worst = max(worst, e)
+        return worst > 1e-4, {"max_abs_err_vs_padded_reference": worst, "failing_corners": details[:4], "n_failing": len(details)}
 
     return run
 
@@ -157,7 +191,7 @@ def sec_slices(rec, patches=None):
     stop = [Sym(start[a].e + tsz[a].e) for a in range(3)]
     names = {f"a{a}" for a in range(3)} | {f"n{a}" for a in range(3)} | {f"s{a}" for a in range(3)}
     paths = explore(lambda: S._prep_slices(tuple(start), tuple(stop), tuple(size), tuple(tsz)), assumptions=hyps, max_paths=2000)
-    rp = replay_place()
+    rp = replay_clip()
     n_none = 0
     for pi, p in enumerate(paths):
         h = hyps + [p.condition()]
@@ -311,7 +345,7 @@ def sec_fragments(rec, two_d=False, patches=None):
                     conds.append(zi(k3[a].start) == z3.ToInt(q))
                 match.append(z3.And(*conds))
             rec.query(f"{tag}/path{pi}/mol{i}-pasted-at-its-position", h, z3.Or(*match) if match else z3.BoolVal(False), key=f"C14/{tag}/molecule-missing-or-misplaced",
-                      replay=rp)
+                      replay=rp, names={"scale"} | {f"p{k}{a}" for k in range(3) for a in range(3)})
 
 
 def sec_conformance(rec):
@@ -389,7 +423,7 @@ def run(tier, procs=None, only=None):
 
 def replay(data):
     key = data.get("key", "")
-    ok, detail = (replay_2d() if "2d" in key else replay_place())(data.get("cex") or {})
+    ok, detail = (replay_2d() if "2d" in key else replay_clip() if "slices" in key else replay_place())(data.get("cex") or {})
     print("replay:", detail)
     print("REPRODUCED" if ok else "not reproduced")
     return 1 if ok else 0
